@@ -72,6 +72,20 @@ T = {
  'C19-C': ('C19', "a negation's span runs from the operator to the end of its operand, but literals carry the dummy span (0,0)", '!1 or !true where the analyzer locates a diagnostic at the expression (metadata key, withdrawal amount, asset policy)'),
  'C20-C': ('C20', 'per-output min_utxo sizes cached in the compiler outlive reset()', 'an earlier resolution on the instance aborted in pass >= 2 (after the compiler ops ran, before compile), then a template using min_utxo on that output index at a tight balance'),
  'C20-D': ('C20', 'resolve_tx resets the compiler on exit instead of on entry', 'a history containing a direct Compiler::compile() (not through resolve_tx), then a min_utxo template sensitive to its first pass'),
+ 'C01-E': ('C01', 'Pratt parser: prefix negation registered below the infix +/- level, so !a + b parses as !(a + b)', 'an unparenthesised ! followed by an infix + or -'),
+ 'C03-C': ('C03', 'pick_single returns the closest candidate at once when its distance on log-compressed amounts is 0, skipping the containment check', 'single-UTxO input, amounts >= ~1e8, best candidate 1..10 short of min_amount'),
+ 'C03-D': ('C03', 'collateral filter extracted into a helper that only rejects Defined classes: a Named (policy-less) asset passes as pure lovelace', 'a collateral block whose candidates include a covering UTxO with an AssetClass::Named entry'),
+ 'C04-D': ('C04', 'taken-refs filter skipped when the exact matches alone fill the 50-ref window', 'a party with >= 50 UTxOs and two blocks sharing the same first-choice UTxO'),
+ 'C05-C': ('C05', 'convergence test also stops when the fee estimate went down (anti-oscillation guard)', 'a fee-dependent amount dropping one CBOR width class as the fee grows; the UTxO total in an 88-lovelace window'),
+ 'C05-D': ('C05', 'round budget check moved after the increment: one evaluation fewer', 'a small budget (0..3) and a resolution needing exactly five distinct rounds'),
+ 'C06-D': ('C06', 'Workspace::apply_args re-lowers every template first, discarding what earlier calls substituted', 'one Workspace: apply_args(a proper subset), then apply_args(the rest)'),
+ 'C06-E': ('C06', 'missing-argument check folds the supplied keys to lower case, substitution does not', 'resolve_tx with a reported parameter absent but a key differing only in letter case present'),
+ 'C07-E': ('C07', 'apply_args falls back to a case-insensitive match of argument names', 'arguments in two batches whose keys are equal up to letter case, the case variant applied first'),
+ 'C07-F': ('C07', 'Property over a literal container resolved as soon as the index is constant', 'Property over a Map literal with a pending key before a constant key equal to the index, reduced while the key is pending'),
+ 'C08-E': ('C08', 'withdrawal redeemer index matched on the credential hash, ignoring the header byte', 'two withdrawals with the same 28-byte hash, one key and one script credential'),
+ 'C09-E': ('C09', 'lowering fast path: a constructor whose case is called Default gets constructor 0 without lookup', 'a variant type with a case literally named Default that is not the first case'),
+ 'C09-F': ('C09', 'map encoder passes its entries through without_duplicates', 'a datum / redeemer map with two entries of equal key and value'),
+ 'C10-D': ('C10', 'script-data hash memoised per redeemer bytes on the compiler instance', 'one instance compiling two transactions with identical redeemers but different Plutus language back to back'),
 }
 # seed -> (detected by the target check when first tried?, what was strengthened to detect it / remark)
 HISTORY = {
@@ -104,6 +118,15 @@ HISTORY = {
  'C18-C': (False, "C18: profile names in several spellings for --profile and --profile-env-file, env files with the program's real env vars and parties"),
  'C20-C': (False, 'C20: history steps that fail late (just below the minimum a fresh instance needs)'),
  'C20-D': (False, 'C20: history steps that compile (or only evaluate compiler operators) directly on the instance'),
+ 'C03-C': (False, 'C03 tight/single: magnitudes from units to 2^45 and near misses 1..10 above the best candidate'),
+ 'C03-D': (False, 'C03 stores: one UTxO in five also holds a policy-less Named asset'),
+ 'C06-D': (False, 'C06: arguments through the Workspace facade in 2..3 apply_args batches'),
+ 'C06-E': (False, 'C06 missing-argument probe: the removed value present under a key differing in letter case only'),
+ 'C07-E': (False, 'C07 trees: a batch of decoy keys (parameter names in upper case, other values) before / after / with the real arguments'),
+ 'C08-E': (False, 'worlds: two withdrawals whose reward accounts share the 28-byte hash (key vs script credential)'),
+ 'C09-E': (False, 'generator: a later variant case named Default'),
+ 'C09-F': (False, 'generator: map literals with an entry repeated verbatim or a key repeated with another value'),
+ 'C10-D': (False, 'C10: the template compiled on an instance that just compiled the previous case / a sibling running another Plutus language'),
 }
 matrix = collections.defaultdict(dict)
 mp = os.path.join(ROOT, 'MATRIX.tsv')
